@@ -5,7 +5,8 @@
 From Coq Require Import List ZArith String Bool Permutation Lia.
 From SCC Require Import Base.Sexp Lang.SynUtil Lang.FunSyn Model.Check Sem.FunTyping
   Proof.FunInd Proof.FunEq Proof.CheckAnn Proof.TypingReject Proof.CheckBuild Proof.CheckMono Proof.CheckMonoSound
-  Proof.PrintInj Proof.CheckPoly.
+  Proof.PrintInj Proof.CheckPoly Proof.CheckInstBase.
+From SCC Require Import Sem.FunClosed.
 Import ListNotations.
 Open Scope list_scope.
 
@@ -91,7 +92,7 @@ Section PSound.
     pinv st -> name_ok x = true -> tys_names_ok targs = true ->
     lookup_ty_for_xtor pol st (x ++ print_targs targs)%string = Some (ty, xs) ->
     exists td, In td ts /\ td_pol td = pol /\ ty = FDecl (td_name td) targs /\ xs = map xs_name (td_xtors td)
-               /\ In x xs /\ targs_ok td targs.
+               /\ In x xs /\ targs_ok td targs /\ has_inst_p st ty.
   Proof.
     intros st pol x targs ty xs I Nx Nt. unfold lookup_ty_for_xtor.
     assert (Hall : forall k v, In (k, v) (st_types st) -> aget (st_types st) k = Some v).
@@ -107,7 +108,8 @@ Section PSound.
       destruct (instance_name_inj _ _ _ _ (name_ok_no_delim _ (PW_xnames _ _ W td s Htd Hs)) (name_ok_no_delim _ Nx)
                   (targs_ok_names _ _ Hok) Nt ltac:(rewrite Hn; exact Ey)) as [Hyx ->].
       exists td. rewrite str_remove_instance_name by (apply name_ok_no_delim; apply (PW_tnames _ _ W); assumption).
-      splits; auto. rewrite <- Hyx, Hn. assumption.
+      splits; auto; [rewrite <- Hyx, Hn; assumption|].
+      simpl. unfold ahas. rewrite Hg. reflexivity.
     - apply IH; [|assumption]. intros. apply Hall. right. assumption.
   Qed.
 
@@ -125,7 +127,8 @@ Section PSound.
     forall eager st ctx T t' st',
       term_names_ok t = true -> ctx_names_ok ctx = true -> ty_names_ok T = true -> tables ts fs st -> pinv st ->
       check_term_gen eager t st ctx T = COk (t', st') ->
-      chk ts fs (E ctx) t T = true /\ pinv st' /\ same_templates st st' /\ grows st st'.
+      chk ts fs (E ctx) t T = true /\ pinv st' /\ same_templates st st' /\ grows st st'
+      /\ term_closed (ikeys st') t' = true.
 
   Lemma ann_check_psound : forall (a : option fty) found st st',
     oty_names_ok a = true -> ty_names_ok found = true -> tables ts fs st -> pinv st ->
@@ -144,11 +147,12 @@ Section PSound.
       tables ts fs st -> pinv st ->
       check_args_with (check_term_gen eager) args (inst_ctx ps targs sg) st ctx = COk (args', st') ->
       List.length args = List.length sg ->
-      chk_args_with (chk ts fs) (E ctx) ps targs args sg = true /\ pinv st' /\ same_templates st st' /\ grows st st'.
+      chk_args_with (chk ts fs) (E ctx) ps targs args sg = true /\ pinv st' /\ same_templates st st' /\ grows st st'
+      /\ terms_closed (ikeys st') args' = true.
   Proof.
     intros args HF. induction HF as [|a ar Ha _ IH]; intros eager ps targs sg st ctx args' st' Hm Hc Ht Nt T I H Hlen.
     - destruct sg; [|discriminate]. simpl in H. inversion H; subst.
-      simpl. auto using same_templates_refl, grows_refl.
+      simpl. auto 10 using same_templates_refl, grows_refl.
     - destruct sg as [|b br]; [discriminate|]. simpl in Hlen. simpl in Hm, Ht.
       apply andb_true_iff in Hm. destruct Hm as [Hma Hmr]. apply andb_true_iff in Ht. destruct Ht as [Htb Htr].
       assert (Nb : ty_names_ok (inst ps targs (fbty b)) = true) by (apply inst_names_ok; assumption).
@@ -159,10 +163,11 @@ Section PSound.
         apply cbind_ok in H. destruct H as [[a' st2] [H2 H]].
         apply cbind_ok in H. destruct H as [[ar' st3] [H3 H]]. inversion H; subst.
         destruct (ty_check_sound ts fs W _ _ _ Nb T I H1) as [_ [I1 [S1 [G1 _]]]].
-        destruct (Ha eager st1 ctx _ a' st2 Hma Hc Nb (tables_same _ _ _ _ T S1) I1 H2) as [Hk [I2 [S2 G2]]].
+        destruct (Ha eager st1 ctx _ a' st2 Hma Hc Nb (tables_same _ _ _ _ T S1) I1 H2) as [Hk [I2 [S2 [G2 C2]]]].
         assert (S12 : same_templates st st2) by eauto using same_templates_trans.
-        destruct (IH eager ps targs br st2 ctx ar' st' Hmr Hc Htr Nt (tables_same _ _ _ _ T S12) I2 H3) as [Hkr [I3 [S3 G3]]]; [lia|].
+        destruct (IH eager ps targs br st2 ctx ar' st' Hmr Hc Htr Nt (tables_same _ _ _ _ T S12) I2 H3) as [Hkr [I3 [S3 [G3 C3]]]]; [lia|].
         rewrite Hk, Hkr. splits; eauto using same_templates_trans, grows_trans.
+        simpl. rewrite (term_closed_mono _ _ (grows_names_le _ _ G3) _ C2). exact C3.
       + (* consumer argument: a covariable *)
         destruct a as [v ann chi| | | | | | | | | | | | | |]; try discriminate.
         assert (Hgo : match chi with Some FPrd => false | _ => true end = true /\
@@ -179,9 +184,15 @@ Section PSound.
         destruct (lookup_covar_E _ _ _ Hl) as [HE [b0 [Hb0 Hbt]]].
         assert (Hmf : ty_names_ok found = true) by (subst found; apply (ctx_names_ok_in ctx); assumption).
         destruct (ann_check_psound ann found st st1 Hma Hmf T I H1) as [Hann [I1 [S1 G1]]].
-        destruct (check_equality_sound ts fs W _ _ _ _ Nb Hmf (tables_same _ _ _ _ T S1) I1 H2) as [Heq [_ [I2 [S2 [G2 _]]]]].
+        destruct (check_equality_sound ts fs W _ _ _ _ Nb Hmf (tables_same _ _ _ _ T S1) I1 H2) as [Heq [_ [I2 [S2 [G2 Hi2]]]]].
         assert (S12 : same_templates st st2) by eauto using same_templates_trans.
-        destruct (IH eager ps targs br st2 ctx ar' st' Hmr Hc Htr Nt (tables_same _ _ _ _ T S12) I2 H3) as [Hkr [I3 [S3 G3]]]; [lia|].
+        destruct (IH eager ps targs br st2 ctx ar' st' Hmr Hc Htr Nt (tables_same _ _ _ _ T S12) I2 H3) as [Hkr [I3 [S3 [G3 C3]]]]; [lia|].
+        assert (Hcl : terms_closed (ikeys st') args' = true).
+        { assert (Ha' : args' = FVar v (Some found) (Some FCns) :: ar').
+          { destruct chi as [[|]|]; try discriminate; simpl in H; rewrite Hl in H; simpl in H; rewrite H1 in H; simpl in H;
+              rewrite H2 in H; simpl in H; rewrite H3 in H; simpl in H; inversion H; reflexivity. }
+          subst args'. simpl. rewrite C3, andb_true_r. rewrite <- Heq.
+          eapply ty_declared_mono; [apply (grows_names_le _ _ G3)|]. apply has_inst_declared. exact Hi2. }
         unfold is_cns. rewrite Heq, HE, fty_eqb_refl, Hkr, Hann, Hchi.
         splits; eauto using same_templates_trans, grows_trans.
   Qed.
@@ -191,7 +202,8 @@ Section PSound.
       terms_names_ok args = true -> ctx_names_ok ctx = true -> ctx_names_ok sg = true -> tys_names_ok targs = true ->
       tables ts fs st -> pinv st ->
       check_args (check_term_gen eager) args (inst_ctx ps targs sg) st ctx = COk (args', st') ->
-      chk_args_with (chk ts fs) (E ctx) ps targs args sg = true /\ pinv st' /\ same_templates st st' /\ grows st st'.
+      chk_args_with (chk ts fs) (E ctx) ps targs args sg = true /\ pinv st' /\ same_templates st st' /\ grows st st'
+      /\ terms_closed (ikeys st') args' = true.
   Proof.
     intros args HF eager ps targs sg st ctx args' st' Hm Hc Ht Nt T I H. unfold check_args in H.
     rewrite inst_ctx_length in H.
@@ -204,7 +216,8 @@ Section PSound.
     forall st ctx T t' st',
       ctx_names_ok ctx = true -> ty_names_ok T = true -> tables ts fs st -> pinv st ->
       pc_chk pc st ctx T = COk (t', st') ->
-      chk ts fs (E ctx) (pc_body pc) T = true /\ pinv st' /\ same_templates st st' /\ grows st st'.
+      chk ts fs (E ctx) (pc_body pc) T = true /\ pinv st' /\ same_templates st st' /\ grows st st'
+      /\ term_closed (ikeys st') t' = true.
 
   Lemma check_clauses_psound : forall (is_case : bool) T td targs xtors pcls st ctx cls' leftover st',
     Forall pc_psound pcls -> ctx_names_ok ctx = true -> tables ts fs st -> pinv st ->
@@ -213,7 +226,7 @@ Section PSound.
     check_clauses is_case (print_targs targs) T xtors pcls st ctx = COk (cls', leftover, st') ->
     exists used, Permutation (used ++ leftover) pcls /\ map pc_xtor used = xtors
       /\ Forall (fun pc => clause_ok ts fs (E ctx) td targs (if is_case then Some T else None) (clause_of pc) = true) used
-      /\ pinv st' /\ same_templates st st' /\ grows st st'.
+      /\ pinv st' /\ same_templates st st' /\ grows st st' /\ clauses_closed (ikeys st') cls' = true.
   Proof.
     intros is_case T td targs xtors. induction xtors as [|x xr IH];
       intros pcls st ctx cls' leftover st' HF Hc Tb I Htd Hok Hxs Hpol HT H.
@@ -255,8 +268,8 @@ Section PSound.
       { destruct is_case; [subst; auto|]. destruct Hbty as [r0 [Hr ->]]. rewrite Hr in Nret. apply inst_names_ok; assumption. }
       assert (Hmc : ctx_names_ok (ctx ++ zip_names (pc_names cl) (inst_ctx (td_params td) targs (xs_args s))) = true).
       { apply ctx_names_ok_app; [assumption|]. apply ctx_names_ok_zip. apply inst_ctx_names_ok; assumption. }
-      destruct (Hcl st _ bty body' st1 Hmc Hmb Tb I Hbody) as [Hk [I1 [S1 G1]]].
-      destruct (IH pcls' st1 ctx rest leftover st' HFr Hc (tables_same _ _ _ _ Tb S1) I1 Htd Hok) as [used [Hp [Hmap [Hall [I2 [S2 G2]]]]]]; auto.
+      destruct (Hcl st _ bty body' st1 Hmc Hmb Tb I Hbody) as [Hk [I1 [S1 [G1 C1]]]].
+      destruct (IH pcls' st1 ctx rest leftover st' HFr Hc (tables_same _ _ _ _ Tb S1) I1 Htd Hok) as [used [Hp [Hmap [Hall [I2 [S2 [G2 C2]]]]]]]; auto.
       { intros y Hy. apply Hxs. right. assumption. }
       exists (cl :: used). splits.
       + simpl. eapply perm_trans; [apply perm_skip; eassumption|assumption].
@@ -269,6 +282,7 @@ Section PSound.
       + assumption.
       + eauto using same_templates_trans.
       + eauto using grows_trans.
+      + simpl. rewrite (term_closed_mono _ _ (grows_names_le _ _ G2) _ C1). exact C2.
   Qed.
 
   Lemma prep_clauses_psound : forall eager cls,
@@ -290,11 +304,11 @@ Section PSound.
       = COk (cls', [], st') ->
     same_names (map clause_xtor cls) (map xs_name (td_xtors td)) = true
     /\ chk_clauses_with (chk ts fs) (E ctx) td targs (if is_case then Some T else None) cls = true
-    /\ pinv st' /\ same_templates st st' /\ grows st st'.
+    /\ pinv st' /\ same_templates st st' /\ grows st st' /\ clauses_closed (ikeys st') cls' = true.
   Proof.
     intros eager is_case T td targs cls st ctx cls' st' HF Hm Hc Tb I Htd Hok Hpol HT H.
     destruct (check_clauses_psound is_case T td targs _ _ st ctx cls' [] st' (prep_clauses_psound eager cls HF Hm) Hc Tb I Htd Hok (fun x H => H) Hpol HT H)
-      as [used [Hp [Hmap [Hall [I' [S G]]]]]].
+      as [used [Hp [Hmap [Hall [I' [S [G C]]]]]]].
     rewrite app_nil_r in Hp.
     assert (Hpc : Permutation (map clause_of used) cls).
     { rewrite <- (prep_clauses_map (check_term_gen eager) cls). apply Permutation_map. assumption. }
@@ -325,11 +339,11 @@ Section PSound.
     tables ts fs st -> pinv st -> name_ok x = true -> tys_names_ok targs = true ->
     lookup_ty_for_xtor_or_template pol st x targs = COk (ty, xs, st1) ->
     exists td, In td ts /\ td_pol td = pol /\ ty = FDecl (td_name td) targs /\ xs = map xs_name (td_xtors td)
-               /\ In x xs /\ targs_ok td targs /\ pinv st1 /\ same_templates st st1 /\ grows st st1.
+               /\ In x xs /\ targs_ok td targs /\ pinv st1 /\ same_templates st st1 /\ grows st st1 /\ has_inst_p st1 ty.
   Proof.
     intros pol st x targs ty xs st1 T I Nx Nt H. unfold lookup_ty_for_xtor_or_template in H.
     destruct (lookup_ty_for_xtor pol st (x ++ print_targs targs)%string) as [[ty0 xs0]|] eqn:El.
-    - inversion H; subst. destruct (lookup_ty_for_xtor_sound _ _ _ _ _ _ I Nx Nt El) as [td [Htd [Hp [-> [-> [Hx Hok]]]]]].
+    - inversion H; subst. destruct (lookup_ty_for_xtor_sound _ _ _ _ _ _ I Nx Nt El) as [td [Htd [Hp [-> [-> [Hx [Hok Hi]]]]]]].
       exists td. splits; auto using same_templates_refl, grows_refl.
     - unfold lookup_ty_template_for_xtor in H. rewrite (t_tt_list _ _ _ T), find_template_find_xtor in H.
       destruct (find_xtor ts pol x) as [[td s]|] eqn:Ef; simpl in H; [|discriminate].
@@ -337,7 +351,7 @@ Section PSound.
       apply find_xtor_in in Ef. destruct Ef as [Hin [Hp Hs]].
       assert (Nty : ty_names_ok (FDecl (td_name td) targs) = true).
       { rewrite ty_names_ok_decl, (PW_tnames _ _ W td Hin). exact Nt. }
-      destruct (ty_check_sound ts fs W _ st st1 Nty T I Hc) as [Hw [I1 [S1 [G1 _]]]].
+      destruct (ty_check_sound ts fs W _ st st1 Nty T I Hc) as [Hw [I1 [S1 [G1 Hi]]]].
       exists td. splits; auto.
       + apply find_xsig_spec in Hs. destruct Hs as [Hs <-]. apply in_map. assumption.
       + apply wf_decl_inv; assumption.
@@ -372,11 +386,16 @@ Section PSound.
       assert (Hmf : ty_names_ok found = true) by (subst found; apply (ctx_names_ok_in ctx); assumption).
       destruct (ann_check_psound ty found st st1 Hm Hmf Tb I H1) as [Hann [I1 [S1 G1]]].
       destruct (check_equality_sound ts fs W _ _ _ _ HT Hmf (tables_same _ _ _ _ Tb S1) I1 H2) as [Heq [_ [I2 [S2 [G2 _]]]]].
+      destruct (check_equality_sound ts fs W _ _ _ _ HT Hmf (tables_same _ _ _ _ Tb S1) I1 H2) as [_ [_ [_ [_ [_ HiT]]]]].
+      assert (Ht' : t' = FVar v (Some T) (Some FPrd)).
+      { destruct chi as [[|]|]; try discriminate; rewrite Hl in Hk; simpl in Hk; rewrite H1 in Hk; simpl in Hk;
+          rewrite H2 in Hk; simpl in Hk; inversion Hk; reflexivity. }
       rewrite <- Heq in HE, Hann. simpl. unfold is_prd. rewrite HE, fty_eqb_refl, Hann, Hchi. splits; frame.
+      subst t'. simpl. apply has_inst_declared. exact HiT.
     - (* FLit *)
       apply cbind_ok in Hk. destruct Hk as [st1 [H1 Hk]]. inversion Hk; subst.
       destruct (check_equality_sound ts fs W T FI64 _ _ HT eq_refl Tb I H1) as [Heq [_ [I2 [S2 [G2 _]]]]].
-      subst T. splits; frame.
+      subst T. splits; frame; try reflexivity.
     - (* FOp *)
       apply andb_true_iff in Hm. destruct Hm as [Hm1 Hm2].
       apply cbind_ok in Hk. destruct Hk as [st1 [H1 Hk]].
@@ -384,10 +403,11 @@ Section PSound.
       apply cbind_ok in Hk. destruct Hk as [[b' st3] [H3 Hk]]. inversion Hk; subst.
       destruct (check_equality_sound ts fs W FI64 T _ _ eq_refl HT Tb I H1) as [Heq [_ [I1 [S1 [G1 _]]]]].
       subst T.
-      destruct (IHt1 eager st1 ctx FI64 a' st2 Hm1 Hc eq_refl (tables_same _ _ _ _ Tb S1) I1 H2) as [K1 [I2 [S2 G2]]].
+      destruct (IHt1 eager st1 ctx FI64 a' st2 Hm1 Hc eq_refl (tables_same _ _ _ _ Tb S1) I1 H2) as [K1 [I2 [S2 [G2 C2]]]].
       assert (S12 : same_templates st st2) by frame.
-      destruct (IHt2 eager st2 ctx FI64 b' st' Hm2 Hc eq_refl (tables_same _ _ _ _ Tb S12) I2 H3) as [K2 [I3 [S3 G3]]].
+      destruct (IHt2 eager st2 ctx FI64 b' st' Hm2 Hc eq_refl (tables_same _ _ _ _ Tb S12) I2 H3) as [K2 [I3 [S3 [G3 C3]]]].
       simpl. rewrite K1, K2. splits; frame.
+      simpl. rewrite (term_closed_mono _ _ (grows_names_le _ _ G3) _ C2), C3. reflexivity.
     - (* FIfC *)
       apply andb_true_iff in Hm. destruct Hm as [Hm Hm4]. apply andb_true_iff in Hm. destruct Hm as [Hm Hm3].
       apply andb_true_iff in Hm. destruct Hm as [Hm1 Hm2].
@@ -395,38 +415,46 @@ Section PSound.
       apply cbind_ok in Hk. destruct Hk as [[b' st2] [H2 Hk]].
       apply cbind_ok in Hk. destruct Hk as [[th' st3] [H3 Hk]].
       apply cbind_ok in Hk. destruct Hk as [[el' st4] [H4 Hk]]. inversion Hk; subst.
-      destruct (IHt1 eager st ctx FI64 a' st1 Hm1 Hc eq_refl Tb I H1) as [K1 [I1 [S1 G1]]].
+      destruct (IHt1 eager st ctx FI64 a' st1 Hm1 Hc eq_refl Tb I H1) as [K1 [I1 [S1 [G1 C1]]]].
       assert (Hb : match b with Some b' => chk ts fs (E ctx) b' FI64 | None => true end = true
-                   /\ pinv st2 /\ same_templates st1 st2 /\ grows st1 st2).
+                   /\ pinv st2 /\ same_templates st1 st2 /\ grows st1 st2
+                   /\ match b' with Some b1 => term_closed (ikeys st2) b1 | None => true end = true).
       { destruct b as [b0|].
         - apply cbind_ok in H2. destruct H2 as [[b1 sb] [H2 H2']]. inversion H2'; subst.
           eapply H; [reflexivity|exact Hm2|exact Hc|reflexivity|exact (tables_same _ _ _ _ Tb S1)|exact I1|exact H2].
         - inversion H2; subst. splits; frame. }
-      destruct Hb as [K2 [I2 [S2 G2]]].
+      destruct Hb as [K2 [I2 [S2 [G2 C2]]]].
       assert (S02 : same_templates st st2) by frame.
-      destruct (IHt2 eager st2 ctx T th' st3 Hm3 Hc HT (tables_same _ _ _ _ Tb S02) I2 H3) as [K3 [I3 [S3 G3]]].
+      destruct (IHt2 eager st2 ctx T th' st3 Hm3 Hc HT (tables_same _ _ _ _ Tb S02) I2 H3) as [K3 [I3 [S3 [G3 C3]]]].
       assert (S03 : same_templates st st3) by frame.
-      destruct (IHt3 eager st3 ctx T el' st' Hm4 Hc HT (tables_same _ _ _ _ Tb S03) I3 H4) as [K4 [I4 [S4 G4]]].
+      destruct (IHt3 eager st3 ctx T el' st' Hm4 Hc HT (tables_same _ _ _ _ Tb S03) I3 H4) as [K4 [I4 [S4 [G4 C4]]]].
       simpl. rewrite K1, K2, K3, K4. splits; frame.
+      simpl. rewrite (term_closed_mono _ _ (grows_names_le _ _ (grows_trans _ _ _ G2 (grows_trans _ _ _ G3 G4))) _ C1).
+      rewrite (term_closed_mono _ _ (grows_names_le _ _ G4) _ C3), C4.
+      destruct b' as [b1|]; [|reflexivity].
+      rewrite (term_closed_mono _ _ (grows_names_le _ _ (grows_trans _ _ _ G3 G4)) _ C2). reflexivity.
     - (* FPrint *)
       apply andb_true_iff in Hm. destruct Hm as [Hm1 Hm2].
       apply cbind_ok in Hk. destruct Hk as [[a' st1] [H1 Hk]].
       apply cbind_ok in Hk. destruct Hk as [[n' st2] [H2 Hk]]. inversion Hk; subst.
-      destruct (IHt1 eager st ctx FI64 a' st1 Hm1 Hc eq_refl Tb I H1) as [K1 [I1 [S1 G1]]].
-      destruct (IHt2 eager st1 ctx T n' st' Hm2 Hc HT (tables_same _ _ _ _ Tb S1) I1 H2) as [K2 [I2 [S2 G2]]].
+      destruct (IHt1 eager st ctx FI64 a' st1 Hm1 Hc eq_refl Tb I H1) as [K1 [I1 [S1 [G1 C1]]]].
+      destruct (IHt2 eager st1 ctx T n' st' Hm2 Hc HT (tables_same _ _ _ _ Tb S1) I1 H2) as [K2 [I2 [S2 [G2 C2]]]].
       simpl. rewrite K1, K2. splits; frame.
+      simpl. rewrite (term_closed_mono _ _ (grows_names_le _ _ G2) _ C1), C2. reflexivity.
     - (* FLet *)
       apply andb_true_iff in Hm. destruct Hm as [Hm Hm3]. apply andb_true_iff in Hm. destruct Hm as [Hm1 Hm2].
       apply cbind_ok in Hk. destruct Hk as [st1 [H1 Hk]].
       apply cbind_ok in Hk. destruct Hk as [[a' st2] [H2 Hk]].
       apply cbind_ok in Hk. destruct Hk as [[b' st3] [H3 Hk]]. inversion Hk; subst.
-      destruct (ty_check_sound ts fs W _ _ _ Hm1 Tb I H1) as [Hw [I1 [S1 [G1 _]]]].
-      destruct (IHt1 eager st1 ctx vty a' st2 Hm2 Hc Hm1 (tables_same _ _ _ _ Tb S1) I1 H2) as [K1 [I2 [S2 G2]]].
+      destruct (ty_check_sound ts fs W _ _ _ Hm1 Tb I H1) as [Hw [I1 [S1 [G1 Hi1]]]].
+      destruct (IHt1 eager st1 ctx vty a' st2 Hm2 Hc Hm1 (tables_same _ _ _ _ Tb S1) I1 H2) as [K1 [I2 [S2 [G2 C2]]]].
       assert (S02 : same_templates st st2) by frame.
       assert (Hc' : ctx_names_ok (ctx ++ [mkfb v FPrd vty]) = true).
       { apply ctx_names_ok_app; [assumption|]. unfold ctx_names_ok. simpl. rewrite Hm1. reflexivity. }
-      destruct (IHt2 eager st2 _ T b' st' Hm3 Hc' HT (tables_same _ _ _ _ Tb S02) I2 H3) as [K2 [I3 [S3 G3]]].
+      destruct (IHt2 eager st2 _ T b' st' Hm3 Hc' HT (tables_same _ _ _ _ Tb S02) I2 H3) as [K2 [I3 [S3 [G3 C3]]]].
       rewrite E_snoc in K2. simpl. rewrite Hw, K1, K2. splits; frame.
+      simpl. rewrite (term_closed_mono _ _ (grows_names_le _ _ G3) _ C2), C3.
+      rewrite (ty_declared_mono _ _ _ (grows_names_le _ _ (grows_trans _ _ _ G2 G3)) (has_inst_declared _ _ Hi1)). reflexivity.
     - (* FCall *)
       rewrite terms_names_ok_eq in Hm.
       destruct (aget (st_defs st) f) as [[types ret]|] eqn:Ed; [|discriminate].
@@ -435,10 +463,13 @@ Section PSound.
       destruct (PW_defs _ _ W d Hdin) as [Hmd Hmr].
       apply cbind_ok in Hk. destruct Hk as [st1 [H1 Hk]].
       apply cbind_ok in Hk. destruct Hk as [[args' st2] [H2 Hk]]. inversion Hk; subst.
-      destruct (check_equality_sound ts fs W _ _ _ _ HT Hmr Tb I H1) as [Heq [_ [I1 [S1 [G1 _]]]]].
+      destruct (check_equality_sound ts fs W _ _ _ _ HT Hmr Tb I H1) as [Heq [_ [I1 [S1 [G1 Hi1]]]]].
       rewrite <- (inst_ctx_nil (fdctx d)) in H2.
-      destruct (check_args_psound args H eager [] [] _ _ _ _ _ Hm Hc Hmd eq_refl (tables_same _ _ _ _ Tb S1) I1 H2) as [K [I2 [S2 G2]]].
-      subst T. simpl. rewrite Ef, fty_eqb_refl, K. splits; frame.
+      destruct (check_args_psound args H eager [] [] _ _ _ _ _ Hm Hc Hmd eq_refl (tables_same _ _ _ _ Tb S1) I1 H2) as [K [I2 [S2 [G2 C2]]]].
+      assert (Hcl : term_closed (ikeys st') (FCall f args' (Some T)) = true).
+      { simpl. rewrite terms_closed_eq, C2, andb_true_r.
+        eapply ty_declared_mono; [apply (grows_names_le _ _ G2)|]. apply has_inst_declared. exact Hi1. }
+      subst T. simpl. rewrite Ef, fty_eqb_refl, K. splits; frame; try exact Hcl.
     - (* FCtor *)
       apply andb_true_iff in Hm. destruct Hm as [Nx Hm]. rewrite terms_names_ok_eq in Hm.
       apply cbind_ok in Hk. destruct Hk as [st0 [H0 Hk]].
@@ -456,24 +487,28 @@ Section PSound.
       { eapply owner_of_names; [exact Htd2|exact Htd|congruence|exact Hx2|]. rewrite <- Hsn. apply in_map. assumption. }
       subst td2.
       destruct (PW_sigs _ _ W td s Htd Hs) as [Nsg _].
-      destruct (check_args_psound args H eager _ _ _ _ _ _ _ Hm Hc Nsg Nt Tb0 I0 H1) as [K [I1 [S1 G1]]].
+      destruct (check_args_psound args H eager _ _ _ _ _ _ _ Hm Hc Nsg Nt Tb0 I0 H1) as [K [I1 [S1 [G1 C1]]]].
       assert (S01 : same_templates st st1) by frame.
       assert (Nty : ty_names_ok (FDecl (td_name td) targs) = true).
       { rewrite ty_names_ok_decl, (PW_tnames _ _ W td Htd). exact Nt. }
-      destruct (check_equality_sound ts fs W _ _ _ _ HT Nty (tables_same _ _ _ _ Tb S01) I1 H2) as [Heq [_ [I2 [S2 [G2 _]]]]].
+      destruct (check_equality_sound ts fs W _ _ _ _ HT Nty (tables_same _ _ _ _ Tb S01) I1 H2) as [Heq [_ [I2 [S2 [G2 Hi2]]]]].
+      assert (Hcl : term_closed (ikeys st') (FCtor x args' (Some (FDecl n targs))) = true).
+      { cbn [term_closed oty_declared]. rewrite terms_closed_eq, (terms_closed_mono _ _ _ (grows_names_le _ _ G2) C1), andb_true_r.
+        apply has_inst_declared. exact Hi2. }
       inversion Heq; subst n. destruct Hok as [Hlen _].
       simpl. rewrite (pw_find_type ts fs W td Htd), Hp, Hlen, PeanoNat.Nat.eqb_refl.
-      rewrite <- Hsn, (find_xsig_of_in ts fs W td s Htd Hs). simpl. rewrite K. splits; frame.
+      rewrite <- Hsn, (find_xsig_of_in ts fs W td s Htd Hs). simpl. rewrite K. splits; frame; try exact Hcl.
     - (* FDtor *)
       apply andb_true_iff in Hm. destruct Hm as [Hm Hm3]. apply andb_true_iff in Hm. destruct Hm as [Hm Hm2].
       apply andb_true_iff in Hm. destruct Hm as [Nx Nt].
       rewrite terms_names_ok_eq in Hm3.
       apply cbind_ok in Hk. destruct Hk as [[[ty xs] st1] [H1 Hk]].
       apply cbind_ok in Hk. destruct Hk as [[s' st2] [H2 Hk]].
-      destruct (lookup_or_template_psound _ _ _ _ _ _ _ Tb I Nx Nt H1) as [td [Htd [Hp [-> [-> [Hx [Hok [I1 [S1 G1]]]]]]]]].
+      destruct (lookup_or_template_psound _ _ _ _ _ _ _ Tb I Nx Nt H1) as [td [Htd [Hp [-> [-> [Hx [Hok [I1 [S1 [G1 Hi1]]]]]]]]]].
       assert (Nty : ty_names_ok (FDecl (td_name td) targs) = true).
       { rewrite ty_names_ok_decl, (PW_tnames _ _ W td Htd). exact Nt. }
-      destruct (IHt eager st1 ctx _ s' st2 Hm2 Hc Nty (tables_same _ _ _ _ Tb S1) I1 H2) as [K1 [I2 [S2 G2]]].
+      pose proof (has_inst_targs_declared ts fs W st1 _ _ I1 (PW_tnames _ _ W td Htd) Nt Hi1) as Cta.
+      destruct (IHt eager st1 ctx _ s' st2 Hm2 Hc Nty (tables_same _ _ _ _ Tb S1) I1 H2) as [K1 [I2 [S2 [G2 C2]]]].
       assert (S02 : same_templates st st2) by frame. pose proof (tables_same _ _ _ _ Tb S02) as Tb2.
       destruct (aget (st_dtors st2) (x ++ print_targs targs)%string) as [[types ret]|] eqn:Ed; [|discriminate].
       apply cbind_ok in Hk. destruct Hk as [[args' st3] [H3 Hk]].
@@ -483,13 +518,18 @@ Section PSound.
       { eapply owner_of_names; [exact Htd'|exact Htd|congruence| |exact Hx]. rewrite <- Hsn. apply in_map. assumption. }
       subst td'.
       destruct (PW_sigs _ _ W td s Htd Hs) as [Nsg Nret]. rewrite Hret in Nret. simpl in Nret.
-      destruct (check_args_psound args H eager _ _ _ _ _ _ _ Hm3 Hc Nsg Nt Tb2 I2 H3) as [K2 [I3 [S3 G3]]].
+      destruct (check_args_psound args H eager _ _ _ _ _ _ _ Hm3 Hc Nsg Nt Tb2 I2 H3) as [K2 [I3 [S3 [G3 C3]]]].
       assert (S03 : same_templates st st3) by frame.
       assert (Nr : ty_names_ok (inst (td_params td) targs r0) = true) by (apply inst_names_ok; assumption).
-      destruct (check_equality_sound ts fs W _ _ _ _ HT Nr (tables_same _ _ _ _ Tb S03) I3 H4) as [Heq [_ [I4 [S4 [G4 _]]]]].
+      destruct (check_equality_sound ts fs W _ _ _ _ HT Nr (tables_same _ _ _ _ Tb S03) I3 H4) as [Heq [_ [I4 [S4 [G4 Hi4]]]]].
+      assert (Hcl : term_closed (ikeys st') (FDtor s' x targs args' (Some T)) = true).
+      { cbn [term_closed oty_declared]. rewrite terms_closed_eq, (terms_closed_mono _ _ _ (grows_names_le _ _ G4) C3), andb_true_r.
+        rewrite (has_inst_declared _ _ Hi4). simpl.
+        rewrite (tys_declared_mono _ _ _ (grows_names_le _ _ (grows_trans _ _ _ G2 (grows_trans _ _ _ G3 G4))) Cta). simpl.
+        exact (term_closed_mono _ _ (grows_names_le _ _ (grows_trans _ _ _ G3 G4)) _ C2). }
       destruct Hok as [Hlen Hwf].
       pose proof (pw_find_xtor ts fs W td s Htd Hs) as Hfx. rewrite Hp', Hsn in Hfx.
-      simpl. rewrite Hfx, Hlen, PeanoNat.Nat.eqb_refl, Hwf. simpl. rewrite K1, K2, Hret, Heq, fty_eqb_refl. splits; frame.
+      simpl. rewrite Hfx, Hlen, PeanoNat.Nat.eqb_refl, Hwf. simpl. rewrite K1, K2, Hret, Heq, fty_eqb_refl. splits; frame; try (rewrite Heq in Hcl; exact Hcl).
     - (* FCase *)
       apply andb_true_iff in Hm. destruct Hm as [Hm Hm3]. apply andb_true_iff in Hm. destruct Hm as [Nt Hm2].
       rewrite clauses_names_ok_eq in Hm3.
@@ -501,13 +541,18 @@ Section PSound.
       apply cbind_ok in Hk. destruct Hk as [[s' st2] [H2 Hk]].
       apply cbind_ok in Hk. destruct Hk as [[[cls' leftover] st3] [H3 Hk]].
       destruct leftover; [|discriminate]. inversion Hk; subst.
-      destruct (lookup_or_template_psound _ _ _ _ _ _ _ Tb I Nx Nt H1) as [td [Htd [Hp [-> [-> [Hx [Hok [I1 [S1 G1]]]]]]]]].
+      destruct (lookup_or_template_psound _ _ _ _ _ _ _ Tb I Nx Nt H1) as [td [Htd [Hp [-> [-> [Hx [Hok [I1 [S1 [G1 Hi1]]]]]]]]]].
       assert (Nty : ty_names_ok (FDecl (td_name td) targs) = true).
       { rewrite ty_names_ok_decl, (PW_tnames _ _ W td Htd). exact Nt. }
-      destruct (IHt eager st1 ctx _ s' st2 Hm2 Hc Nty (tables_same _ _ _ _ Tb S1) I1 H2) as [K1 [I2 [S2 G2]]].
+      pose proof (has_inst_targs_declared ts fs W st1 _ _ I1 (PW_tnames _ _ W td Htd) Nt Hi1) as Cta.
+      destruct (IHt eager st1 ctx _ s' st2 Hm2 Hc Nty (tables_same _ _ _ _ Tb S1) I1 H2) as [K1 [I2 [S2 [G2 C2]]]].
       assert (S02 : same_templates st st2) by frame.
       destruct (clauses_psound_result eager true T td targs _ st2 ctx cls' st' H Hm3 Hc (tables_same _ _ _ _ Tb S02) I2 Htd Hok Hp (fun _ => HT) H3)
-        as [Ksn [Kcl [I3 [S3 G3]]]].
+        as [Ksn [Kcl [I3 [S3 [G3 C3]]]]].
+      assert (Hcl : term_closed (ikeys st') (FCase s' targs cls' (Some T)) = true).
+      { cbn [term_closed oty_declared]. rewrite clauses_closed_eq, C3, andb_true_r.
+        rewrite (tys_declared_mono _ _ _ (grows_names_le _ _ (grows_trans _ _ _ G2 G3)) Cta). simpl.
+        exact (term_closed_mono _ _ (grows_names_le _ _ G3) _ C2). }
       destruct (xtor_of_name _ _ Hx) as [s [Hs Hsn]].
       pose proof (pw_find_xtor ts fs W td s Htd Hs) as Hfx. rewrite Hp, Hsn in Hfx.
       destruct Hok as [Hlen Hwf].
@@ -517,7 +562,7 @@ Section PSound.
                  && same_names (map clause_xtor (FClause p0 x0 ns0 c0 b0 :: clr)) (map xs_name (td_xtors td))
                  && chk_clauses_with (chk ts fs) (E ctx) td targs (Some T) (FClause p0 x0 ns0 c0 b0 :: clr))).
       { simpl. rewrite Hfx. reflexivity. }
-      rewrite Hgoal, K1, Ksn, Kcl, Hlen, PeanoNat.Nat.eqb_refl, Hwf. splits; frame.
+      rewrite Hgoal, K1, Ksn, Kcl, Hlen, PeanoNat.Nat.eqb_refl, Hwf. splits; frame; try exact Hcl.
     - (* FNew *)
       rewrite clauses_names_ok_eq in Hm.
       apply cbind_ok in Hk. destruct Hk as [st0 [H0 Hk]].
@@ -533,29 +578,32 @@ Section PSound.
       destruct (instance_name_inj _ _ _ _ (name_ok_no_delim _ Nn) (name_ok_no_delim _ (PW_tnames _ _ W td Htd))
                   Nt (targs_ok_names _ _ Hok) Ek) as [-> <-].
       destruct (clauses_psound_result eager false (FDecl (td_name td) targs) td targs _ st0 ctx cls' st' H Hm Hc Tb0 I0 Htd Hok Hp
-                  (fun H => ltac:(discriminate)) H1) as [Ksn [Kcl [I3 [S3 G3]]]].
+                  (fun H => ltac:(discriminate)) H1) as [Ksn [Kcl [I3 [S3 [G3 C3]]]]].
+      assert (Hcl : term_closed (ikeys st') (FNew cls' (Some (FDecl (td_name td) targs))) = true).
+      { cbn [term_closed oty_declared]. rewrite clauses_closed_eq, C3, andb_true_r.
+        eapply ty_declared_mono; [apply (grows_names_le _ _ G3)|]. apply has_inst_declared. simpl. unfold ahas. rewrite Eg. reflexivity. }
       destruct Hok as [Hlen Hwf].
-      simpl. rewrite (pw_find_type ts fs W td Htd), Hp, Hlen, PeanoNat.Nat.eqb_refl. simpl. rewrite Ksn, Kcl. splits; frame.
+      simpl. rewrite (pw_find_type ts fs W td Htd), Hp, Hlen, PeanoNat.Nat.eqb_refl. simpl. rewrite Ksn, Kcl. splits; frame; try exact Hcl.
     - (* FLabel *)
       apply cbind_ok in Hk. destruct Hk as [[b' st1] [H1 Hk]]. inversion Hk; subst.
       assert (Hc' : ctx_names_ok (ctx ++ [mkfb l FCns T]) = true).
       { apply ctx_names_ok_app; [assumption|]. unfold ctx_names_ok. simpl. rewrite HT. reflexivity. }
-      destruct (IHt eager st _ T b' st' Hm Hc' HT Tb I H1) as [K [I1 [S1 G1]]].
-      rewrite E_snoc in K. simpl. rewrite K. splits; frame.
+      destruct (IHt eager st _ T b' st' Hm Hc' HT Tb I H1) as [K [I1 [S1 [G1 C1]]]].
+      rewrite E_snoc in K. simpl. rewrite K. splits; frame; try exact C1.
     - (* FGoto *)
       apply cbind_ok in Hk. destruct Hk as [cont [Hl Hk]].
       apply cbind_ok in Hk. destruct Hk as [[b' st1] [H1 Hk]]. inversion Hk; subst.
       destruct (lookup_covar_E _ _ _ Hl) as [HE [b0 [Hb0 Hbt]]].
       assert (Hmf : ty_names_ok cont = true) by (subst cont; apply (ctx_names_ok_in ctx); assumption).
-      destruct (IHt eager st ctx cont b' st' Hm Hc Hmf Tb I H1) as [K [I1 [S1 G1]]].
-      simpl. unfold cns_ty. rewrite HE, K. splits; frame.
+      destruct (IHt eager st ctx cont b' st' Hm Hc Hmf Tb I H1) as [K [I1 [S1 [G1 C1]]]].
+      simpl. unfold cns_ty. rewrite HE, K. splits; frame; try exact C1.
     - (* FExit *)
       apply cbind_ok in Hk. destruct Hk as [[b' st1] [H1 Hk]]. inversion Hk; subst.
-      destruct (IHt eager st ctx FI64 b' st' Hm Hc eq_refl Tb I H1) as [K [I1 [S1 G1]]].
-      simpl. rewrite K. splits; frame.
+      destruct (IHt eager st ctx FI64 b' st' Hm Hc eq_refl Tb I H1) as [K [I1 [S1 [G1 C1]]]].
+      simpl. rewrite K. splits; frame; try exact C1.
     - (* FParen *)
       apply cbind_ok in Hk. destruct Hk as [[b' st1] [H1 Hk]]. inversion Hk; subst.
-      destruct (IHt eager st ctx T b' st' Hm Hc HT Tb I H1) as [K [I1 [S1 G1]]].
-      simpl. rewrite K. splits; frame.
+      destruct (IHt eager st ctx T b' st' Hm Hc HT Tb I H1) as [K [I1 [S1 [G1 C1]]]].
+      simpl. rewrite K. splits; frame; try exact C1.
   Qed.
 End PSound.
